@@ -64,6 +64,10 @@ pub struct SCfg {
     pub cleanup_ms: u64,
     #[serde(default = "always")]
     pub validator: Validator,
+    /// build through `Cache::builder(num_counters, max_cost)` and leave key builder, hasher,
+    /// buffer sizes and cleanup interval at the library defaults
+    #[serde(default)]
+    pub defaults: bool,
 }
 
 fn always() -> Validator {
@@ -197,9 +201,13 @@ fn es<T>(r: Result<T, stretto::CacheError>) -> Result<T, String> {
     r.map_err(|e| e.to_string())
 }
 
-struct SyncApi(RSync);
+struct SyncApi<KH, S>(Cache<K, Val, KH, TagCoster, Validator, RecTs, S>);
 
-impl Api for SyncApi {
+impl<KH, S> Api for SyncApi<KH, S>
+where
+    KH: stretto::KeyBuilder<Key = K> + Send + Sync + 'static,
+    S: std::hash::BuildHasher + Clone + Send + Sync + 'static,
+{
     fn insert(&self, k: K, v: Val, cost: i64, ttl: Duration) -> Result<bool, String> {
         es(self.0.try_insert_with_ttl(k, v, cost, ttl))
     }
@@ -254,13 +262,17 @@ impl Api for SyncApi {
     }
 }
 
-struct AsyncApi(RAsync);
+struct AsyncApi<KH: stretto::KeyBuilder<Key = K>, S>(AsyncCache<K, Val, KH, TagCoster, Validator, RecTs, S>);
 
 fn bo<F: std::future::Future>(f: F) -> F::Output {
     futures::executor::block_on(f)
 }
 
-impl Api for AsyncApi {
+impl<KH, S> Api for AsyncApi<KH, S>
+where
+    KH: stretto::KeyBuilder<Key = K> + Send + Sync + 'static,
+    S: std::hash::BuildHasher + Clone + Send + Sync + 'static,
+{
     fn insert(&self, k: K, v: Val, cost: i64, ttl: Duration) -> Result<bool, String> {
         es(bo(self.0.try_insert_with_ttl(k, v, cost, ttl)))
     }
@@ -368,6 +380,36 @@ fn spawn_thread(fut: futures::future::BoxFuture<'static, ()>) {
 }
 
 pub fn build_api(exec: Exec, cfg: &SCfg, cb: RecTs) -> Result<Box<dyn Api>, stretto::CacheError> {
+    if cfg.defaults {
+        // the documented entry points with everything else left at its default
+        return match exec {
+            Exec::Sync => {
+                let c = Cache::<K, Val>::builder(cfg.num_counters, cfg.max_cost)
+                    .set_metrics(cfg.metrics)
+                    .set_ignore_internal_cost(cfg.ignore_internal_cost)
+                    .set_coster(TagCoster)
+                    .set_update_validator(cfg.validator)
+                    .set_callback(cb)
+                    .finalize()?;
+                Ok(Box::new(SyncApi(c)))
+            }
+            _ => {
+                let b = AsyncCache::<K, Val>::builder(cfg.num_counters, cfg.max_cost)
+                    .set_metrics(cfg.metrics)
+                    .set_ignore_internal_cost(cfg.ignore_internal_cost)
+                    .set_coster(TagCoster)
+                    .set_update_validator(cfg.validator)
+                    .set_callback(cb);
+                let c = match exec {
+                    Exec::TokioMt => b.finalize(spawn_tokio_mt)?,
+                    Exec::TokioCt => b.finalize(spawn_tokio_ct)?,
+                    Exec::AsyncStd => b.finalize(spawn_async_std)?,
+                    _ => b.finalize(spawn_thread)?,
+                };
+                Ok(Box::new(AsyncApi(c)))
+            }
+        };
+    }
     match exec {
         Exec::Sync => {
             let c = CacheBuilder::new_with_key_builder(cfg.num_counters, cfg.max_cost, TransparentKeyBuilder::<K>::default())
@@ -808,6 +850,9 @@ fn run_inner(case: &StressCase) -> SResult {
         }
         Kind::Config => {
             let c = &case.cfg;
+            if c.defaults {
+                res.classes.push("default_builder".into());
+            }
             res.nontrivial = c.num_counters < 8 || !c.num_counters.is_power_of_two() || c.buffer_size <= 2 || c.buffer_items <= 1 || c.max_cost <= 1;
         }
         Kind::Invariants | Kind::Reclaim | Kind::Validated | Kind::Lookups => {}
@@ -1515,7 +1560,7 @@ pub fn stress_strategy(kind: Kind, async_pct: u32) -> BoxedStrategy<StressCase> 
                     StressCase {
                         kind,
                         exec,
-                        cfg: SCfg { num_counters: 1000, max_cost: 1 << 40, buffer_size: bs, buffer_items: 64, metrics: false, ignore_internal_cost: true, cleanup_ms: 2, validator: Validator::Always },
+                        cfg: SCfg { num_counters: 1000, max_cost: 1 << 40, buffer_size: bs, buffer_items: 64, metrics: false, ignore_internal_cost: true, cleanup_ms: 2, validator: Validator::Always, defaults: false },
                         threads,
                         perturb,
                         drop_only: false,
@@ -1558,7 +1603,7 @@ pub fn stress_strategy(kind: Kind, async_pct: u32) -> BoxedStrategy<StressCase> 
                         StressCase {
                             kind,
                             exec,
-                            cfg: SCfg { num_counters: 100, max_cost: 1 << 40, buffer_size: bs, buffer_items: 8, metrics: false, ignore_internal_cost: true, cleanup_ms: 500, validator: Validator::Always },
+                            cfg: SCfg { num_counters: 100, max_cost: 1 << 40, buffer_size: bs, buffer_items: 8, metrics: false, ignore_internal_cost: true, cleanup_ms: 500, validator: Validator::Always, defaults: false },
                             threads,
                             perturb,
                             drop_only: false,
@@ -1603,7 +1648,7 @@ pub fn stress_strategy(kind: Kind, async_pct: u32) -> BoxedStrategy<StressCase> 
                     StressCase {
                         kind,
                         exec,
-                        cfg: SCfg { num_counters: 64, max_cost: 12, buffer_size: bs, buffer_items: 4, metrics: true, ignore_internal_cost: true, cleanup_ms: 20, validator: Validator::Always },
+                        cfg: SCfg { num_counters: 64, max_cost: 12, buffer_size: bs, buffer_items: 4, metrics: true, ignore_internal_cost: true, cleanup_ms: 20, validator: Validator::Always, defaults: false },
                         threads,
                         perturb,
                         drop_only,
@@ -1623,7 +1668,10 @@ pub fn stress_strategy(kind: Kind, async_pct: u32) -> BoxedStrategy<StressCase> 
             any::<u64>(),
         )
             .prop_flat_map(move |(exec, nc, mc, bs, bi, metrics, ign, cleanup_ms, perturb)| {
-                let cfg = SCfg { num_counters: nc, max_cost: mc, buffer_size: bs, buffer_items: bi, metrics, ignore_internal_cost: ign, cleanup_ms, validator: Validator::Always };
+                // one case in five goes through the default builder (default key builder, hasher,
+                // buffer sizes, cleanup interval); a zero buffer size cannot be expressed there
+                let defaults = perturb % 5 == 0 && bs != 0;
+                let cfg = SCfg { num_counters: nc, max_cost: mc, buffer_size: bs, buffer_items: bi, metrics, ignore_internal_cost: ign, cleanup_ms, validator: Validator::Always, defaults };
                 let internal = if ign { 0 } else { isz };
                 let unit = if mc > 0 && mc < i64::MAX / 4 { (mc - internal).max(1) } else { 1 };
                 // under a negative max_cost only items of negative cost can be admitted: the
@@ -1653,7 +1701,7 @@ pub fn stress_strategy(kind: Kind, async_pct: u32) -> BoxedStrategy<StressCase> 
             .prop_map(move |(exec, cleanup_ms, ins, metrics, perturb)| StressCase {
                 kind,
                 exec,
-                cfg: SCfg { num_counters: 100, max_cost: 1 << 40, buffer_size: 64, buffer_items: 8, metrics, ignore_internal_cost: true, cleanup_ms, validator: Validator::Always },
+                cfg: SCfg { num_counters: 100, max_cost: 1 << 40, buffer_size: 64, buffer_items: 8, metrics, ignore_internal_cost: true, cleanup_ms, validator: Validator::Always, defaults: false },
                 threads: vec![ins.into_iter().map(|(k, cost, ttl_ms)| SOp::Insert { k, cost, ttl_ms }).collect()],
                 perturb,
                 drop_only: false,
@@ -1683,7 +1731,7 @@ pub fn stress_strategy(kind: Kind, async_pct: u32) -> BoxedStrategy<StressCase> 
                     StressCase {
                         kind,
                         exec,
-                        cfg: SCfg { num_counters: 100, max_cost: 1 << 40, buffer_size: 4096, buffer_items: 8, metrics: false, ignore_internal_cost: true, cleanup_ms: 500, validator: Validator::TagGe },
+                        cfg: SCfg { num_counters: 100, max_cost: 1 << 40, buffer_size: 4096, buffer_items: 8, metrics: false, ignore_internal_cost: true, cleanup_ms: 500, validator: Validator::TagGe, defaults: false },
                         threads,
                         perturb,
                         drop_only: false,
@@ -1720,7 +1768,7 @@ pub fn stress_strategy(kind: Kind, async_pct: u32) -> BoxedStrategy<StressCase> 
                         exec,
                         // tight capacity for the disturbers' keys: every insert needs an admission
                         // decision under the policy lock; aging window far above the lookup count
-                        cfg: SCfg { num_counters: 65536, max_cost: 55, buffer_size: 64, buffer_items: bi, metrics: true, ignore_internal_cost: true, cleanup_ms: 500, validator: Validator::Always },
+                        cfg: SCfg { num_counters: 65536, max_cost: 55, buffer_size: 64, buffer_items: bi, metrics: true, ignore_internal_cost: true, cleanup_ms: 500, validator: Validator::Always, defaults: false },
                         threads,
                         perturb,
                         drop_only: false,
@@ -1762,7 +1810,7 @@ pub fn stress_strategy(kind: Kind, async_pct: u32) -> BoxedStrategy<StressCase> 
                 proptest::collection::vec(proptest::collection::vec(op, 5..50), nt..=nt).prop_map(move |threads| StressCase {
                     kind,
                     exec,
-                    cfg: SCfg { num_counters: 64, max_cost, buffer_size: bs, buffer_items: 3, metrics, ignore_internal_cost: ign, cleanup_ms: 5, validator: Validator::Always },
+                    cfg: SCfg { num_counters: 64, max_cost, buffer_size: bs, buffer_items: 3, metrics, ignore_internal_cost: ign, cleanup_ms: 5, validator: Validator::Always, defaults: false },
                     threads,
                     perturb,
                     drop_only: false,
